@@ -256,6 +256,7 @@ func handleShareMemoryByMemFd(s *Session, h header) error {
 	//4.mapping share memory
 	qm, err := mappingQueueManagerMemfd(queuePath, queueFd)
 	if err != nil {
+		_ = syscall.Close(bufferFd)
 		return err
 	}
 	s.queueManager = qm
